@@ -66,7 +66,7 @@ def run(modname, fname, cases, timeout_s=10, workers=None, chunk=None):
     """Return the list of observations, in case order."""
     if not cases:
         return []
-    workers = workers or min(16, os.cpu_count() or 4)
+    workers = workers or int(os.environ.get('VT_WORKERS') or 0) or min(16, os.cpu_count() or 4)
     if chunk is None:
         chunk = max(1, min(200, len(cases) // (workers * 4) or 1))
     chunks = [(cases[i:i + chunk], timeout_s) for i in range(0, len(cases), chunk)]
